@@ -133,7 +133,13 @@ theorem step_early (d : Src) (banned : List Kind) (st : ASt) (lex : Lexeme) (cur
     simp only [hty] at h
     cases hc : st.cur with
     | none => simp only [hc] at h; injection h with h; subst h; rfl
-    | some r => simp [hc] at h
+    | some r =>
+      simp only [hc] at h
+      first
+        | (simp at h; done)
+        | (split at h
+           · injection h with h; subst h; rfl
+           · simp at h)
 
 /-- the assembly of directives has no partial operation: it never produces a fault -/
 theorem steps_early (d : Src) (banned : List Kind) : ∀ (l : List (Lexeme × Nat)) (st : ASt) (e : PErr),
@@ -807,9 +813,18 @@ theorem step_idx (d : Src) (banned : List Kind) (st : ASt) (lex : Lexeme) (cur :
     cases hcur : st.cur with
     | none => exact ⟨(fun e h => by injection h with h; subst h; exact here _ (by intro j h; cases h) (Or.inl rfl)), (by simp)⟩
     | some r =>
-      refine ⟨(by simp), (fun st' h => ?_)⟩
-      injection h with h; subst h
-      intro r' hr'; injection hr' with hr'; subst hr'; exact hc r hcur
+      first
+        | (refine ⟨(by simp), (fun st' h => ?_)⟩
+           injection h with h; subst h
+           intro r' hr'; injection hr' with hr'; subst hr'; exact hc r hcur)
+        | (by_cases hx : r.explicit = true
+           · simp only [hx, if_true]
+             exact ⟨(fun e h => by injection h with h; subst h; exact here _ (by intro j h; cases h) (Or.inl rfl)), (by simp)⟩
+           · simp only [hx]
+             refine ⟨(by simp), (fun st' h => ?_)⟩
+             simp only [Bool.false_eq_true, if_false] at h
+             injection h with h; subst h
+             intro r' hr'; injection hr' with hr'; subst hr'; exact hc r hcur)
 
 theorem steps_idx (d : Src) (banned : List Kind) : ∀ (l : List (Lexeme × Nat)) (st : ASt),
     (∀ x ∈ l, GoodLex d x) → CurOK d st →
@@ -1054,6 +1069,9 @@ example : stageOf (process "GET /a /b".toUTF8.toList noOracle []) = (2, 7) := by
 example : stageOf (process "JSIGHT 0.3\nBody any\n".toUTF8.toList noOracle []) = (3, 11) := by decide +kernel
 example : stageOf (process "JSIGHT 0.3\nGET /a\n  PASTE @x\n".toUTF8.toList noOracle []) = (4, 20) := by decide +kernel
 example : stageOf (process "GET /a\n  200 any\n".toUTF8.toList noOracle []) = (5, 0) := by decide +kernel
+-- a second "(" of one directive has no directive to belong to (F45); one "(" is fine
+example : stageOf (process "JSIGHT 0.3\nGET /a\n(\n(\n  200 any\n)\n".toUTF8.toList noOracle []) = (2, 20) := by decide +kernel
+example : stageOf (process "JSIGHT 0.3\nGET /a\n(\n  200 any\n)\n".toUTF8.toList noOracle []) = (0, 0) := by decide +kernel
 
 /-! projects: an include cycle (`root → a → root`), an accepted project, a fault inside an included file -/
 
